@@ -172,10 +172,12 @@ closeLoop:
 
 func (s *atpServerSession) runATPReadLoop() {
 	// The message is generic, so we must find the type and decode the full message next.
-	var runtimeMessage DecodedRuntimeMessage
 	for {
 		// First, decode the message
 		// Note: This blocks. To abort early, close stdin.
+		// A fresh value for every message: the decoder leaves fields that are absent from a message untouched, so
+		// a reused value would carry the previous message's run ID or payload into an incomplete message.
+		var runtimeMessage DecodedRuntimeMessage
 		if err := s.cborStdin.Decode(&runtimeMessage); err != nil {
 			// Failed to decode. If it's done, that's okay. If not, there's a problem.
 			done := false
